@@ -41,7 +41,9 @@ theorem json_set_of_get (t : Ty) (v : Val) (txt : List Char) (hf : fits t v = tr
   simp [jsonSetLeaf, this, skipWs, PathIter.byteLen]
 
 /-- **postcard round trip**: every unsigned/signed integer width (LEB128 + zig-zag, one raw byte
-for 8-bit), bool, unit, `Option`, arrays, structs, unit enums -/
+for 8-bit), bool, unit, `Option`, arrays, structs, unit enums, and strings of any Unicode text (LEB128 byte length +
+UTF-8, proved with the UTF-8 encoder/decoder round trip `utf8Dec_enc`; bounded `heapless` strings within their
+capacity) -/
 theorem postcard_roundtrip (t : Ty) (v : Val) (bs rest : Bytes) (hf : pcFits t v = true) (he : pcEnc t v = some bs) :
     pcDec t (bs ++ rest) = some (v, rest) :=
   pc_rt v t bs rest hf he
